@@ -574,7 +574,7 @@ class Interp:
             if sub is not None:
                 return ModuleRef(self, self.module(m.name + '.' + name))
             if name == '__version__' and m.name == 'emsarray':
-                return core.Opaque('emsarray.__version__') if hasattr(core, 'Opaque') else '0.0'
+                return '0.0.0+model'
             raise PyRaise(ExcObj(AttributeError, (f'module {m.name} has no attribute {name}',)))
         if isinstance(obj, SuperProxy):
             mro = obj.obj.cls.mro() if isinstance(obj.obj, (Obj, ExcObj)) else obj.obj.mro()
